@@ -56,6 +56,8 @@ fn read_patterns_small() -> Vec<Value> {
         json!({"steps":[["send"],["write_to",1]]}),
         json!({"steps":[["send"],["text_utf8_raw"]],"pk":"ascii"}),
         json!({"steps":[["send"],["read",1],["bytes"]]}),
+        json!({"steps":[["send"],["efs_bytes"]]}),
+        json!({"steps":[["send"],["split_bytes"]]}),
     ]
 }
 
@@ -110,7 +112,7 @@ pub fn generate(family: &str, seed: u64, tier: &str) -> Vec<String> {
                         for (pi, p) in read_patterns_small().iter().enumerate() {
                             // keep the product tractable: all read patterns for the basic segmentations,
                             // a rotating one for the others
-                            if qi >= 2 && (qi + si) % 8 != pi {
+                            if qi >= 2 && (qi + si) % 10 != pi {
                                 continue;
                             }
                             let sc = with(&with(&with(s, seg.clone()), p.clone()), json!({"seed":si,"garbage":g,
@@ -119,6 +121,22 @@ pub fn generate(family: &str, seed: u64, tier: &str) -> Vec<String> {
                             out.push(sc);
                         }
                     }
+                }
+            }
+        }
+        // C04: every status code x the status helpers (is_success / error_for_status / split)
+        "x_status" => {
+            for code in 100..1000usize {
+                for (oi, op) in ["efs_bytes", "split_bytes", "bytes"].iter().enumerate() {
+                    if !thorough && oi == 2 && code % 10 != 0 {
+                        continue;
+                    }
+                    let kind = ["length", "chunked", "close"][(code + oi) % 3];
+                    let mut sc = json!({"id":format!("xst-{}-{}", code, op),"status":code,"plen":5 + code % 3,"pk":"bytes","seed":code,
+                        "body":{"kind":kind,"chunks":[2, 3 + code % 3]},"steps":[["send"],[op]],
+                        "reason": (["OK", "", "Not Found", "I'm a teapot"][code % 4])});
+                    if code % 2 == 0 { sc["pre"] = json!(100000); } else { sc["segs"] = json!([7, 9, 1]); }
+                    out.push(sc);
                 }
             }
         }
@@ -299,7 +317,7 @@ pub fn generate(family: &str, seed: u64, tier: &str) -> Vec<String> {
                 match r.below(6) {
                     0 => sc["steps"] = json!([["send"], ["bytes"]]),
                     1 => sc["steps"] = json!([["send"], ["write_to", *r.pick(&[0usize, 1000, 8192])]]),
-                    2 => sc["steps"] = json!([["send"], ["text_utf8_raw"]]),
+                    2 => sc["steps"] = json!([["send"], [*r.pick(&["text_utf8_raw", "text_utf8_raw", "efs_bytes", "split_bytes"])]]),
                     _ => {
                         sc["steps"] = json!([["send"], ["reads"]]);
                         sc["pat"] = json!(pat);
